@@ -58,10 +58,15 @@ TCheck == /\ Ev.ev = "tcheck"
 OwnSend == /\ Ev.ev = "ownsend"
            /\ Ev.h \in DOMAIN acc
            /\ UNCHANGED <<acc, newest, latest>>
+(*   {"ev":"nokeys","h":H}   the receiver handled a "no encryption keys" error of the sender: the session's       *)
+(*        keys are dropped, what was accepted from the sender (signed class: the newest time stamp) is not        *)
+NoKeys == /\ Ev.ev = "nokeys"
+          /\ Ev.h \in DOMAIN latest
+          /\ UNCHANGED <<acc, newest, latest>>
 
 TraceNext == /\ l <= Len(Trace)
              /\ l' = l + 1
-             /\ (Reset \/ Check \/ TCheck \/ OwnSend)
+             /\ (Reset \/ Check \/ TCheck \/ OwnSend \/ NoKeys)
 
 TraceSpec == TraceInit /\ [][TraceNext]_tvars
 
